@@ -59,8 +59,9 @@ func c12Gen(r *vhRng) string {
 		if r.Chance(1, 12) { // unrelated random input
 			for _, n := range []int{r.Intn(12), r.Intn(40)} {
 				b := r.Bytes(n)
-				// a random byte-string length is 2^29 on average and is really allocated: mostly avoid
-				if n > 0 && c12StartsByteString(t) && !r.Chance(1, 30) {
+				// a random byte-string length is 2^29 on average and is really allocated and cleared (a second
+				// or more each, minutes on a loaded machine): avoid; the corpus and the evil lengths cover it
+				if n > 0 && c12StartsByteString(t) {
 					b[0] &^= 2
 				}
 				add(b)
@@ -81,11 +82,11 @@ func c12Gen(r *vhRng) string {
 			}
 		}
 		// bit flips (the mode bit of a byte-string length that turns it into a random 30-bit
-		// length only rarely: such lengths are really allocated)
+		// length never: such lengths are really allocated)
 		for k := 0; k < 6 && len(honest) > 0; k++ {
 			b := append([]byte{}, honest...)
 			pos, bit := r.Intn(len(b)), uint(r.Intn(8))
-			if isSite[pos] && bit == 1 && !r.Chance(1, 30) {
+			if isSite[pos] && bit == 1 {
 				bit = 2 + uint(r.Intn(6))
 			}
 			b[pos] ^= 1 << bit
@@ -97,7 +98,7 @@ func c12Gen(r *vhRng) string {
 			b := append([]byte{}, honest...)
 			pos := r.Intn(len(b))
 			nb := byte(r.U64())
-			if isSite[pos] && !r.Chance(1, 30) {
+			if isSite[pos] {
 				nb &^= 2
 			}
 			b[pos] = nb
